@@ -47,3 +47,15 @@ pub fn implicit_is_ambiguous(dict: &Dict, tag: (u16, u16), after_tag: [u8; 2]) -
 pub fn explicit_is_undecidable(dict: &Dict, tag: (u16, u16), vr: [u8; 2]) -> bool {
     !is_vr_code(vr) || !compatible(entry_vr(dict, tag).as_deref(), vr)
 }
+
+/// Class of the two bytes after the first tag with respect to the dictionary entry of that tag.
+pub fn probe_class(dict: &Dict, tag: (u16, u16), after_tag: [u8; 2]) -> &'static str {
+    if !is_vr_code(after_tag) {
+        return "not-a-vr-code";
+    }
+    match entry_vr(dict, tag) {
+        None => "vr-code-no-entry",
+        Some(e) if compatible(Some(&e), after_tag) => "vr-code-compatible",
+        Some(_) => "vr-code-incompatible",
+    }
+}
